@@ -13,11 +13,14 @@
      10 LongToIPv4(a) and back                      -> put_list text ++ [IPv4ToLong text]
    every output ends with three flags the Go side computes: agrees-with-the-standard-library, string and []byte
    instantiations agree, input unchanged afterwards — the model and the specification say [1; 1; 1].
-   sub 0 = model; sub 1 = specification (unbounded scan for ParseUint, positional definition for hex, x itself for the
-   IPv4 round trip; for kinds 4-8 the standard-library primitive IS the specification: same as the model).
+   sub 0 = model; sub 1 = specification (the DECLARATIVE Go-literal grammar Model/StrconvGrammar.v go_parse_uint for
+   ParseUint, positional definition for hex, x itself for the IPv4 round trip; for kinds 4-8 the standard-library primitive IS the specification: same as the model).
+   sub 3 = the intermediate specification of ParseUint (spec_parse_uint: the model's grammar layer around an unbounded
+   scan; other kinds as sub 1);  sub 4 = [underscoreOK state machine on l1; its declarative token-level reading on l1]
+   (all proved equal in Proofs/Strconv*.v; runnable so that each layer can be compared with the real strconv).
    Standard-library primitives are looked up in the oracle table; a missing entry yields [ASK; query]. *)
 From Coq Require Import List ZArith Bool.
-From V Require Import Lib.Enc Gen.StrzStd Model.Strconv Model.Hex.
+From V Require Import Lib.Enc Gen.StrzStd Model.Strconv Model.Hex Model.StrconvGrammar.
 Import ListNotations.
 Local Open Scope Z_scope.
 
@@ -33,7 +36,7 @@ Definition spec_hex_encode (src : list Z) : list Z :=
   flat_map (fun b => [hexchar (b / 16); hexchar (b mod 16)]) src.
 
 Definition run (spec : bool) (k a b : Z) (l1 l2 : list Z) (tbl : list (list Z * list Z)) : list Z :=
-  if k =? 0 then presult_tokens ((if spec then spec_parse_uint else parse_uint) l1 a b) ++ flags
+  if k =? 0 then presult_tokens ((if spec then go_parse_uint else parse_uint) l1 a b) ++ flags
   else if k =? 1 then put_list ((if spec then spec_hex_encode else hex_encode) l1) ++ flags
   else if k =? 2 then let (p, e) := if spec then hex_spec l1 else hex_decode l1 [] in put_list p ++ herr_tokens e ++ flags
   else if k =? 3 then
@@ -63,6 +66,8 @@ Definition entry (sub : Z) (args : list Z) : list Z :=
       let tbl := match r2 with n :: t => fst (get_table (Z.to_nat n) t) | [] => [] end in
       if sub =? 0 then run false k a b l1 l2 tbl
       else if sub =? 1 then run true k a b l1 l2 tbl
+      else if sub =? 3 then (if k =? 0 then presult_tokens (spec_parse_uint l1 a b) ++ flags else run true k a b l1 l2 tbl)
+      else if sub =? 4 then [if underscore_ok l1 then 1 else 0; if go_underscore_ok l1 then 1 else 0]
       else [BADCASE]
   | _ => [BADCASE]
   end.
@@ -74,6 +79,11 @@ Example anchor_range : entry 0 [0; 10; 8; 3; 50; 53; 54; 0; 0] = [2; 0; 255; 1; 
 Proof. vm_compute. reflexivity. Qed.
 Example anchor_base0 : entry 1 [0; 0; 64; 5; 48; 120; 95; 49; 102; 0; 0] = [0; 0; 31; 1; 1; 1].      (* "0x_1f" *)
 Proof. vm_compute. reflexivity. Qed.
+Example anchor_base0_scan : entry 3 [0; 0; 64; 5; 48; 120; 95; 49; 102; 0; 0] = [0; 0; 31; 1; 1; 1].
+Proof. vm_compute. reflexivity. Qed.
+Example anchor_grammar_sep : entry 1 [0; 0; 64; 4; 49; 95; 95; 48; 0; 0] = [1; 0; 0; 1; 1; 1]                       (* "1__0" *)
+  /\ entry 1 [0; 0; 8; 4; 57; 57; 57; 120; 0; 0] = [2; 0; 255; 1; 1; 1].                                             (* "999x", 8 bits: range first *)
+Proof. split; vm_compute; reflexivity. Qed.
 Example anchor_hexdec : entry 0 [2; 0; 0; 5; 52; 49; 103; 52; 50; 0; 0] = [1; 65; 1; 103; 1; 1; 1].  (* "41g42" *)
 Proof. vm_compute. reflexivity. Qed.
 Example anchor_inplace : entry 0 [3; 0; 0; 4; 52; 49; 52; 50; 0; 0] = [4; 65; 66; 52; 50; 2; 0; 0; 1; 1; 1].
